@@ -1,0 +1,84 @@
+//! Verification hooks (only compiled with `--cfg roto_verif`)
+//!
+//! These give an external test harness access to a few crate-private parts:
+//! the LIR evaluator with scalar arguments and the raw source locations that
+//! an error report cites.
+
+use crate::lir::IrValue;
+
+/// A scalar value that can be passed to and returned from the LIR evaluator
+#[derive(Clone, Copy, Debug, PartialEq)]
+#[allow(missing_docs)]
+pub enum Scalar {
+    Bool(bool),
+    U8(u8),
+    U16(u16),
+    U32(u32),
+    U64(u64),
+    I8(i8),
+    I16(i16),
+    I32(i32),
+    I64(i64),
+    F32(f32),
+    F64(f64),
+    Char(char),
+}
+
+impl Scalar {
+    pub(crate) fn to_ir(self) -> IrValue {
+        match self {
+            Scalar::Bool(x) => IrValue::Bool(x),
+            Scalar::U8(x) => IrValue::U8(x),
+            Scalar::U16(x) => IrValue::U16(x),
+            Scalar::U32(x) => IrValue::U32(x),
+            Scalar::U64(x) => IrValue::U64(x),
+            Scalar::I8(x) => IrValue::I8(x),
+            Scalar::I16(x) => IrValue::I16(x),
+            Scalar::I32(x) => IrValue::I32(x),
+            Scalar::I64(x) => IrValue::I64(x),
+            Scalar::F32(x) => IrValue::F32(x),
+            Scalar::F64(x) => IrValue::F64(x),
+            Scalar::Char(x) => IrValue::Char(x),
+        }
+    }
+
+    pub(crate) fn from_ir(v: IrValue) -> Option<Self> {
+        Some(match v {
+            IrValue::Bool(x) => Scalar::Bool(x),
+            IrValue::U8(x) => Scalar::U8(x),
+            IrValue::U16(x) => Scalar::U16(x),
+            IrValue::U32(x) => Scalar::U32(x),
+            IrValue::U64(x) => Scalar::U64(x),
+            IrValue::I8(x) => Scalar::I8(x),
+            IrValue::I16(x) => Scalar::I16(x),
+            IrValue::I32(x) => Scalar::I32(x),
+            IrValue::I64(x) => Scalar::I64(x),
+            IrValue::F32(x) => Scalar::F32(x),
+            IrValue::F64(x) => Scalar::F64(x),
+            IrValue::Char(x) => Scalar::Char(x),
+            IrValue::Asn(_) | IrValue::Pointer(_) => return None,
+        })
+    }
+}
+
+/// What the LIR evaluator produced for `main`
+#[derive(Clone, Copy, Debug, PartialEq)]
+pub enum EvalResult {
+    /// The function returned no value (unit)
+    Unit,
+    /// The function returned this scalar
+    Value(Scalar),
+    /// The function returned something that is not a scalar
+    Other,
+}
+
+/// A source location cited by a report: file index and byte range
+#[derive(Clone, Copy, Debug, PartialEq, Eq)]
+pub struct CitedLocation {
+    /// Index into the report's files
+    pub file: usize,
+    /// Start byte offset
+    pub start: usize,
+    /// End byte offset
+    pub end: usize,
+}
